@@ -395,6 +395,23 @@ def origin_assumes(b):
                     table[o] = None
                 else:
                     table[o] = tv
+        elif isinstance(c, Cmp) and c.op in ('==', '!=', 'is', 'is not') and \
+                (isinstance(c.left, Phi) != isinstance(c.right, Phi)):
+            phi, other = (c.left, c.right) if isinstance(c.left, Phi) else (c.right, c.left)
+            for a, o in phi.alts:
+                if o is None and isinstance(a, Obj):
+                    o = a.site
+                if o is None:
+                    table = None
+                    break
+                r = b.b.compare('==' if c.op in ('==', '!=') else 'is', a, other)
+                tv = None
+                if isinstance(r, Const):
+                    tv = bool(r.value) if c.op in ('==', 'is') else not bool(r.value)
+                if o in table and table[o] != tv:
+                    table[o] = None
+                else:
+                    table[o] = tv
         else:
             table = None
         if table and any(v is not None for v in table.values()):
